@@ -20,7 +20,13 @@ i2 == Inst(P1, DoeJohn, S11, 20200101, E111, CT, I1112)
 i3 == Inst(P1, DoeJohn, S12, 20210101, E121, MR, I1211)
 i4 == Inst(p1, DOEJOHN, S21, 20200615, E211, ct, I2111)
 i5 == Inst(PU1, DoPcJUhn, S31, 20190101, E311, CT, I3111)
-DBs == [full |-> {i1, i2, i3, i4, i5}, two |-> {i1, i3}, empty |-> {}]
+\* the same SOP Instance stored again without its Study Date and Modality: the later store replaces the earlier one
+i3x == [i3 EXCEPT !.StudyDate = 0, !.Modality = <<>>]
+\* a database is what a sequence of C-STOREs leaves behind (a later store of the same SOP Instance UID replaces the record)
+Stores == [full |-> <<i1, i2, i3, i4, i5>>, two |-> <<i1, i3>>, empty |-> <<>>, restored |-> <<i1, i3, i3x>>]
+RECURSIVE Apply(_, _)
+Apply(db0, seq) == IF seq = <<>> THEN db0 ELSE Apply({r \in db0 : r.SOPInstanceUID # Head(seq).SOPInstanceUID} \cup {Head(seq)}, Tail(seq))
+DBs == [n \in DOMAIN Stores |-> Apply({}, Stores[n])]
 \* ---- matching specifications per key ----
 Ab == [t |-> "absent"]      Un == [t |-> "universal"]
 Sg(v) == [t |-> "single", v |-> v]      Wd(v) == [t |-> "wild", v |-> v]      Ls(v) == [t |-> "list", v |-> v]      Rg(a, b) == [t |-> "range", lo |-> a, hi |-> b]
@@ -50,7 +56,7 @@ Export == PrintT(<<"CASE", [db |-> db, model |-> model, op |-> op, level |-> id.
                             nhits |-> IF Valid(model, Effective(op, id)) THEN NHits(DBs[db], model, op, id) ELSE 0]>>)
 \* the databases themselves, for the harness (one state)
 DbSpec == (db = "full" /\ model = "patient_root" /\ op = "find" /\ id = [level |-> "PATIENT", keys |-> Plain("patient_root", "PATIENT")]) /\ [][Next]_<<db, model, op, id>>
-DbExport == PrintT(<<"DBS", DBs>>)
+DbExport == PrintT(<<"DBS", Stores>>)
 \* ---- lemmas on every case ----
 \* an absent key and universal matching select the same entities (when both identifiers are valid)
 L_Universal == \A k \in Keys : id.keys[k].t = "universal" =>
@@ -58,6 +64,8 @@ L_Universal == \A k \in Keys : id.keys[k].t = "universal" =>
                  (Valid(model, Effective(op, id)) /\ Valid(model, Effective(op, id2))) => Selected(DBs[db], model, op, id) = Selected(DBs[db], model, op, id2)
 \* what is selected exists in the database, and a smaller database never selects more
 L_Monotone == Selected(DBs["two"], model, op, id) \subseteq Selected(DBs["full"], model, op, id)
+\* a re-stored instance is matched on its new values only
+L_Restored == \A r \in DBs["restored"] : r.SOPInstanceUID = I1211 => r = i3x
 \* list of UID matching with one UID is single value matching
 L_ListOne == \A k \in Keys : id.keys[k].t = "list" /\ Cardinality(id.keys[k].v) = 1 =>
                 Selected(DBs[db], model, op, id) = Selected(DBs[db], model, op, [id EXCEPT !.keys[k] = Sg(CHOOSE x \in id.keys[k].v : TRUE)])
